@@ -39,7 +39,7 @@ func stubValidateSingle(values chartutil.Values, schemaJSON []byte) error {
 	if ok, _ := values["ok"].(bool); ok {
 		return nil
 	}
-	return fmt.Errorf("- at '': missing or wrong property 'ok'\n")
+	return fmt.Errorf("- at '/ok': value must be true\n") // the real validator's text for ok: false
 }
 
 type fakeDiscovery struct {
@@ -129,13 +129,33 @@ func h14(tree int) {
 	cfg := w.config()
 	cfg.RESTClientGetter = fakeGetter{}
 	var err error
+	mode := 0
 	if upgrade {
 		u := NewUpgrade(cfg)
 		u.Namespace, u.SkipSchemaValidation = "default", skip
+		// no other option may switch the gate off: the value-carrying modes, dry-run
+		mode = ndChoice("upgradeMode", 5)
+		switch mode {
+		case 1:
+			u.ResetValues = true
+		case 2:
+			u.ReuseValues = true
+		case 3:
+			u.ResetThenReuseValues = true
+		case 4:
+			u.DryRun = true
+		}
 		_, err = u.Run(relName, parent, vals)
 	} else {
 		i := NewInstall(cfg)
 		i.ReleaseName, i.Namespace, i.SkipSchemaValidation = relName, "default", skip
+		mode = ndChoice("installMode", 3)
+		switch mode {
+		case 1: // helm template
+			i.DryRun, i.ClientOnly = true, true
+		case 2:
+			i.DryRun = true
+		}
 		_, err = i.Run(parent, vals)
 	}
 	var violators []string
@@ -148,7 +168,7 @@ func h14(tree int) {
 			}
 		}
 	}
-	vTag(fmt.Sprintf("tree=%d upgrade=%v crd=%v violators=%v skip=%v", tree, upgrade, withCRD, violators, skip))
+	vTag(fmt.Sprintf("tree=%d upgrade=%v crd=%v violators=%v skip=%v", tree, upgrade, withCRD && mode == 0, violators, skip))
 	rejected := !skip && len(violators) > 0
 	vObservef("err=%v", err)
 	vAssert("gate/error-iff-an-enabled-chart-violates-its-schema", (err != nil) == rejected)
